@@ -315,6 +315,15 @@ def finish(prop, tier, t0, cov, violations, known, broken):
         broken += ibroken
         for pred, detail, path in iviol:
             violations.append(({"op": "iteration", "pre": "", "field": pred, "want": "", "got": str(detail)[:300], "cfg": None}, path))
+    if prop == "C04" and not broken:
+        # a read that extends the deadline races the expiration sweep; the sized cache is filled right afterwards (SweepHist.tla)
+        import c13check
+        rn, rviol, rbroken = c13check.read_race_half(prop, tier)
+        cov["read_race_scenarios"] = rn
+        cov["traces_validated_against_impl"] += rn
+        broken += rbroken
+        for pred, detail, path in rviol:
+            violations.append(({"op": "readrace", "pre": "", "field": pred, "want": "", "got": str(detail)[:300], "cfg": None}, path))
     if prop in ("C04", "C05", "C07") and not broken:
         # the eviction policy object itself: every call on the real policy replayed on Policy.tla (pointer-level model of
         # policy.go / linked.go, incl. the hill climber and tasks applied out of order), judged by PolicyTrace.tla
